@@ -677,6 +677,7 @@ class Workspace(AbstractContextManager):
         Search and remove deleted entities
         """
         rem_list: list = []
+        in_use: set | None = None
         for key, value in referents.items():
             if value() is None:
                 rem_list += [key]
@@ -684,12 +685,36 @@ class Workspace(AbstractContextManager):
                 # flat container of their own: nothing to remove from the file.
                 if rtype == "PropertyGroups":
                     continue
+                # Types of concatenated data that are not loaded have no referent
+                # but are still in use on file.
+                if rtype == "Types":
+                    if in_use is None:
+                        in_use = self._concatenated_type_ids()
+                    if key in in_use:
+                        continue
                 self._io_call(
                     H5Writer.remove_entity, key, rtype, parent=self, mode="r+"
                 )
 
         for key in rem_list:
             del referents[key]
+
+    def _concatenated_type_ids(self) -> set:
+        """
+        Unique identifiers of the types referenced by the concatenated attributes
+        of the loaded Concatenator groups.
+        """
+        type_ids = set()
+        for ref in list(self._groups.values()):
+            group = ref()
+            if not isinstance(group, Concatenator):
+                continue
+            attributes = group.concatenated_attributes or {}
+            for elem in attributes.get("Attributes", []):
+                for label in ("Type ID", "Object Type ID"):
+                    if label in elem:
+                        type_ids.add(str2uuid(elem[label]))
+        return type_ids
 
     def remove_recursively(self, entity: Entity | PropertyGroup):
         """Delete an entity and its children from the workspace and geoh5 recursively"""
